@@ -86,40 +86,40 @@ def lookupRawPkh (dec : AtomDec) (bs : Bytes) : Except DecodeErr Nat :=
 
 /-! ### `Miniscript::from_ast` -/
 
-def isXOnly (env : KeyEnv) (k : Key) : Bool := (env.ser k).length == 32
+def decIsXOnly (env : KeyEnv) (k : Key) : Bool := (env.ser k).length == 32
 
 /-- `Ctx::check_pk` -/
-def checkPk (env : KeyEnv) (ctx : Ctx) (k : Key) : Bool :=
+def decCheckPk (env : KeyEnv) (ctx : Ctx) (k : Key) : Bool :=
   match ctx with
-  | .bare | .legacy => !isXOnly env k
-  | .segwitv0 => !isUnc env k && !isXOnly env k
+  | .bare | .legacy => !decIsXOnly env k
+  | .segwitv0 => !isUnc env k && !decIsXOnly env k
   | .tap => !isUnc env k
 
 /-- the `pk_cost` ceiling of `check_global_consensus_validity` + `check_global_policy_validity`
 (Segwitv0: 10 000 by consensus, then 3 600 by policy) -/
-def maxPkCost : Ctx → Nat
+def decMaxPkCost : Ctx → Nat
   | .bare => 10000 | .legacy => 520 | .segwitv0 => 3600 | .tap => 4000000
 
 /-- `Ctx::check_global_validity` (node test first, then the size test) -/
 def checkGlobal (env : KeyEnv) (ctx : Ctx) (ms : Ms) : Bool :=
   let nodeOk : Bool :=
     match ms with
-    | .pkK k => checkPk env ctx k
+    | .pkK k => decCheckPk env ctx k
     | .multi _ ks | .sortedMulti _ ks =>
-      (match ctx with | .tap => false | _ => ks.all (checkPk env ctx))
+      (match ctx with | .tap => false | _ => ks.all (decCheckPk env ctx))
     | .multiA _ ks | .sortedMultiA _ ks =>
-      (match ctx with | .tap => ks.all (checkPk env ctx) | _ => false)
+      (match ctx with | .tap => ks.all (decCheckPk env ctx) | _ => false)
     | _ => true
-  nodeOk && decide ((extOf env ctx ms).pkCost ≤ maxPkCost ctx)
+  nodeOk && decide ((extOf env ctx ms).pkCost ≤ decMaxPkCost ctx)
 
-def MAX_RECURSION_DEPTH : Nat := 402
+def DEC_MAX_RECURSION_DEPTH : Nat := 402
 
 /-- `Miniscript::from_ast`: type check, tree height, global validity -/
 def fromAst (env : KeyEnv) (ctx : Ctx) (ms : Ms) : Except DecodeErr Ms :=
   match typeOf ms with
   | none => .error .typeCheck
   | some _ =>
-    if (extOf env ctx ms).treeHeight > MAX_RECURSION_DEPTH then .error .recursion
+    if (extOf env ctx ms).treeHeight > DEC_MAX_RECURSION_DEPTH then .error .recursion
     else if !checkGlobal env ctx ms then .error .context
     else .ok ms
 
@@ -482,54 +482,54 @@ def decodeToks (dec : AtomDec) (env : KeyEnv) (ctx : Ctx) (toks : List Token) :
 
 mutual
 /-- does any node satisfy `p` (`for ms in self.iter()`) -/
-def Ms.anyNode (p : Ms → Bool) : Ms → Bool
-  | .alt x => p (.alt x) || x.anyNode p
-  | .swap x => p (.swap x) || x.anyNode p
-  | .check x => p (.check x) || x.anyNode p
-  | .dupIf x => p (.dupIf x) || x.anyNode p
-  | .verify x => p (.verify x) || x.anyNode p
-  | .nonZero x => p (.nonZero x) || x.anyNode p
-  | .zeroNotEqual x => p (.zeroNotEqual x) || x.anyNode p
-  | .andV l r => p (.andV l r) || l.anyNode p || r.anyNode p
-  | .andB l r => p (.andB l r) || l.anyNode p || r.anyNode p
-  | .orB l r => p (.orB l r) || l.anyNode p || r.anyNode p
-  | .orD l r => p (.orD l r) || l.anyNode p || r.anyNode p
-  | .orC l r => p (.orC l r) || l.anyNode p || r.anyNode p
-  | .orI l r => p (.orI l r) || l.anyNode p || r.anyNode p
-  | .andOr a b c => p (.andOr a b c) || a.anyNode p || b.anyNode p || c.anyNode p
-  | .thresh k xs => p (.thresh k xs) || xs.anyNode p
+def Ms.decAnyNode (p : Ms → Bool) : Ms → Bool
+  | .alt x => p (.alt x) || x.decAnyNode p
+  | .swap x => p (.swap x) || x.decAnyNode p
+  | .check x => p (.check x) || x.decAnyNode p
+  | .dupIf x => p (.dupIf x) || x.decAnyNode p
+  | .verify x => p (.verify x) || x.decAnyNode p
+  | .nonZero x => p (.nonZero x) || x.decAnyNode p
+  | .zeroNotEqual x => p (.zeroNotEqual x) || x.decAnyNode p
+  | .andV l r => p (.andV l r) || l.decAnyNode p || r.decAnyNode p
+  | .andB l r => p (.andB l r) || l.decAnyNode p || r.decAnyNode p
+  | .orB l r => p (.orB l r) || l.decAnyNode p || r.decAnyNode p
+  | .orD l r => p (.orD l r) || l.decAnyNode p || r.decAnyNode p
+  | .orC l r => p (.orC l r) || l.decAnyNode p || r.decAnyNode p
+  | .orI l r => p (.orI l r) || l.decAnyNode p || r.decAnyNode p
+  | .andOr a b c => p (.andOr a b c) || a.decAnyNode p || b.decAnyNode p || c.decAnyNode p
+  | .thresh k xs => p (.thresh k xs) || xs.decAnyNode p
   | m => p m
-def MsList.anyNode (p : Ms → Bool) : MsList → Bool
+def MsList.decAnyNode (p : Ms → Bool) : MsList → Bool
   | .nil => false
-  | .cons x xs => x.anyNode p || xs.anyNode p
+  | .cons x xs => x.decAnyNode p || xs.decAnyNode p
 end
 
 /-- `ValidationParams::validate_pk` under `ctx`'s CONSENSUS parameters -/
-def validatePk (env : KeyEnv) (ctx : Ctx) (k : Key) : Bool :=
+def decValidatePk (env : KeyEnv) (ctx : Ctx) (k : Key) : Bool :=
   match ctx with
-  | .bare | .legacy => !isXOnly env k           -- compressed + uncompressed allowed
-  | .segwitv0 => !isUnc env k && !isXOnly env k
+  | .bare | .legacy => !decIsXOnly env k           -- compressed + uncompressed allowed
+  | .segwitv0 => !isUnc env k && !decIsXOnly env k
   | .tap => !isUnc env k                        -- compressed keys pass (treated as x-only)
 
 /-- is this node illegal under `ctx`'s CONSENSUS parameters -/
-def nodeIllegal (env : KeyEnv) (ctx : Ctx) : Ms → Bool
+def decNodeIllegal (env : KeyEnv) (ctx : Ctx) : Ms → Bool
   | .dupIf _ => (match ctx with | .bare | .legacy => true | _ => false)
   | .orI _ _ => (match ctx with | .bare | .legacy => true | _ => false)
   | .multi _ ks | .sortedMulti _ ks =>
-    (match ctx with | .tap => true | _ => !ks.all (validatePk env ctx))
+    (match ctx with | .tap => true | _ => !ks.all (decValidatePk env ctx))
   | .multiA _ ks | .sortedMultiA _ ks =>
-    (match ctx with | .tap => !ks.all (validatePk env ctx) | _ => true)
-  | .pkK k | .pkH k => !validatePk env ctx k
+    (match ctx with | .tap => !ks.all (decValidatePk env ctx) | _ => true)
+  | .pkK k | .pkH k => !decValidatePk env ctx k
   | _ => false
 
 /-- `max_script_size` of `Ctx::CONSENSUS` (`none` = `usize::MAX`) -/
-def maxScriptSize : Ctx → Option Nat
+def decMaxScriptSize : Ctx → Option Nat
   | .bare => some 10000 | .legacy => some 520 | _ => none
 /-- `max_opcode_count` -/
-def maxOpcodeCount : Ctx → Option Nat
+def decMaxOpcodeCount : Ctx → Option Nat
   | .tap => none | _ => some 201
 /-- `max_exec_stack_size` -/
-def maxExecStack : Ctx → Option Nat
+def decMaxExecStack : Ctx → Option Nat
   | .segwitv0 => some 1000 | _ => none
 
 /-- `Miniscript::validate(&Ctx::CONSENSUS)`: `true` = `Ok(())` -/
@@ -537,15 +537,15 @@ def validateConsensus (env : KeyEnv) (ctx : Ctx) (ms : Ms) : Bool :=
   let ext := extOf env ctx ms
   let nonTop : Bool :=
     if ext.treeHeight > 402 then false
-    else if ms.anyNode (nodeIllegal env ctx) then false
-    else if (match maxScriptSize ctx with | some l => decide (scriptSize env ctx ms > l) | none => false) then false
+    else if ms.decAnyNode (decNodeIllegal env ctx) then false
+    else if (match decMaxScriptSize ctx with | some l => decide (scriptSize env ctx ms > l) | none => false) then false
     else
       match ext.satData with
       | none => true     -- `max_satisfaction_witness_elements()` is `Err`: early `Ok(())`
       | some sd =>
         -- max_witness_items = usize::MAX in every CONSENSUS set
-        if (match maxOpcodeCount ctx with | some l => decide (ext.staticOps + sd.execOps > l) | none => false) then false
-        else if (match maxExecStack ctx with | some l => decide (sd.wCount + sd.execStack > l) | none => false) then false
+        if (match decMaxOpcodeCount ctx with | some l => decide (ext.staticOps + sd.execOps > l) | none => false) then false
+        else if (match decMaxExecStack ctx with | some l => decide (sd.wCount + sd.execStack > l) | none => false) then false
         else true
   nonTop &&
     -- allow_non_b = false
